@@ -4,7 +4,7 @@ decision than `iterSpec`; the violation carries that state (model-level witness)
 (C01, C06) search the implementation.  Used by C01 and C06."""
 import os, re, sys
 sys.path.insert(0, os.path.dirname(os.path.abspath(__file__)))
-import vlib, gen_resubmit, gen_topup
+import vlib, gen_resubmit, gen_topup, gen_flush
 
 THMS = ["IsalVerif.GenProps.Resubmit.all_canon", "IsalVerif.GenProps.Resubmit.all_count",
         "IsalVerif.GenProps.Resubmit.resubmit_current", "IsalVerif.GenProps.Resubmit.paramsOf_is_standard",
@@ -43,6 +43,32 @@ def topup_obligations(chk):
     return not failed
 
 
+THMS_FLUSH = ["IsalVerif.GenProps.Flush.all_canon", "IsalVerif.GenProps.Flush.all_count", "IsalVerif.GenProps.Flush.flush_current",
+              "IsalVerif.FlushC.canon_run", "IsalVerif.FlushC.ctxFlush_unfold"]
+
+
+def flush_obligations(chk):
+    b = vlib.build_repo.get_build("default")
+    try:
+        rows = gen_flush.main([os.path.join(b, "src"), vlib.LEAN])
+        gen_err = ""
+    except Exception as e:
+        rows, gen_err = [], str(e)[:300]
+    chk.oblige("translator: loop body of %d context-layer flush functions -> Gen/Flush.lean" % len(rows), bool(rows) and not gen_err, gen_err)
+    failed = vlib.lean_obligations(chk, "IsalVerif.GenProps.Flush", THMS_FLUSH) if rows else [("gen_flush", gen_err)]
+    chk.cov["ctx_flush"] = {"functions": len(rows), "theorems": THMS_FLUSH}
+    bad = [(rel, fn) for rel, fn, prog in rows if prog != [".mgrFlush", ".retNullIfNull", ".resubmit", ".retIfCtx"]]
+    for rel, fn in (bad if failed else []):
+        chk.violation("flush loop of %s no longer the proved one" % fn,
+                      {"kind": "ctx-flush", "file": rel, "fn": fn, "broken_obligations": [x[0] for x in failed],
+                       "note": "the implementation is searched by the correspondence sweeps of this check"},
+                      no_input=True, match={"file": rel, "monitor": "ctx-flush"})
+    if failed and not bad:
+        for name, detail in failed:
+            chk.violation("Lean obligation no longer checks: %s" % name, {"kind": "obligation", "obligation": name, "detail": detail}, no_input=True)
+    return not failed
+
+
 def lean_witnesses():
     src = ("import IsalVerif.Gen.Resubmit\nimport IsalVerif.Lemmas.ResubmitCProofs\nopen IsalVerif.ResubmitC\n"
            "def pz : String → (Nat × Nat × Bool)\n  | \"sha512\" => (128, 7, false)\n  | \"sm3\" => (64, 6, true)\n  | _ => (64, 6, false)\n"
@@ -71,6 +97,7 @@ def obligations(chk, tier):
     failed = vlib.lean_obligations(chk, "IsalVerif.GenProps.Resubmit", THMS) if rows else [("gen_resubmit", gen_err)]
     chk.cov["resubmit_loop"] = {"functions": len(rows), "theorems": THMS}
     top_ok = topup_obligations(chk)
+    top_ok = flush_obligations(chk) and top_ok
     if not failed:
         return top_ok
     wit, raw = lean_witnesses()
